@@ -1,34 +1,23 @@
 (* Source tie, family 74-gotrans-data (data/value.go): List.Index and Map.Key of the hand
    model (Model/Values.v) against the methods as gotrans translates them from today's source.
    (Truthy and Equals are tied by tablegen's values.go and Proofs/ValueTieProofs.v.)
-
-   gotrans translates data.Value as an abstract type V; what a function does with a value
-   enters as parameters: v_kind (the dynamic type, coded 0 Undefined 1 Null 2 Bool 3 Int
-   4 Float 5 String 6 List 7 Map -- the order of tablegen's valueKinds), the constructors it
-   uses (v_undefined, v_of_bool, ...) and the payload projections of one-valued type
-   assertions (v_as_list, ...).  Here they are instantiated with Model/Values.v's [value]. *)
+ *)
 From Coq Require Import ZArith NArith Bool Lia ZifyBool ZifyN List.
-From Soy Require Import Model.Bytes Model.Num Model.Outcome Model.Values Generated.Tables Proofs.SourceTieBase.
+From Soy Require Import Model.Bytes Model.Num Model.Outcome Model.Values Generated.Tables Proofs.SourceTieBase Proofs.SourceTieValue.
 Import ListNotations.
 Open Scope N_scope.
-
-Definition vkind (v : value) : Z :=
-  match v with
-  | VUndef => 0 | VNull => 1 | VBool _ => 2 | VInt _ => 3 | VFloat _ => 4 | VStr _ => 5 | VList _ _ => 6 | VMap _ _ => 7
-  end%Z.
-Definition v_as_list (v : value) : option (list value) := match v with VList _ l => Some l | _ => None end.
 
 (* func (v List) Index(i int) Value *)
 Theorem list_index_matches_source (l : list value) (i : Z) :
   src_data_List_Index value VUndef l i = Some (list_index l i).
 Proof.
-  unfold src_data_List_Index, list_index.
-  destruct (negb (andb (Z.leb 0 i) (Z.ltb i (go_len l)))) eqn:E.
-  - replace ((i <? 0)%Z || (Z.of_nat (length l) <=? i)%Z) with true by (unfold go_len in E; lia). reflexivity.
-  - replace ((i <? 0)%Z || (Z.of_nat (length l) <=? i)%Z) with false by (unfold go_len in E; lia).
-    rewrite go_index_in by (unfold go_len in *; lia).
-    destruct (nth_error l (Z.to_nat i)) eqn:E2; [reflexivity|].
-    apply nth_error_None in E2. unfold go_len in E. lia.
+  unfold src_data_List_Index, list_index. cbv zeta.
+  pose proof (go_len_nonneg l) as Hl. change (Z.of_nat (length l)) with (go_len l).
+  destruct (Z_lt_dec i 0) as [Hi|Hi]; [decide_ifs; reflexivity|].
+  destruct (Z_le_dec (go_len l) i) as [Hj|Hj]; [decide_ifs; reflexivity|].
+  decide_ifs. rewrite go_index_in by lia. cbv zeta.
+  destruct (nth_error l (Z.to_nat i)) eqn:E2; [reflexivity|].
+  apply nth_error_None in E2. unfold go_len in Hj. lia.
 Qed.
 
 (* func (v Map) Key(k string) Value *)
